@@ -376,21 +376,26 @@ def run(tier, replay=None):
         "p1": dict(mod="MCJsonGrammar.tla", cfg="MCJsonGrammar_quick.cfg" if quick else "MCJsonGrammar_thorough.cfg",
                    workers=4 if quick else 8),
         "p1sim": dict(mod="MCJsonGrammar.tla", cfg="MCJsonGrammar_sim.cfg", workers=1,
-                      simulate=150 if quick else 1500, depth=26, tseed=18),
+                      simulate=100 if quick else 600, depth=26, tseed=18),
         "p1seed": dict(mod="MCJsonGrammar.tla", cfg="MCJsonGrammar_sim.cfg", workers=1,
-                       simulate=60 if quick else 600, depth=26, tseed=1000 + seed),
+                       simulate=40 if quick else 400, depth=26, tseed=1000 + seed),
         "sbfs": dict(mod="MCJsonStringify.tla", cfg="MCJsonStringify_quick.cfg" if quick else "MCJsonStringify_thorough.cfg",
                      workers=3 if quick else 4),
         "ssim": dict(mod="MCJsonStringify.tla", cfg="MCJsonStringify_simq.cfg" if quick else "MCJsonStringify_simt.cfg",
-                     workers=1, simulate=120 if quick else 1500, depth=80, tseed=18),
+                     workers=1, simulate=100 if quick else 600, depth=80, tseed=18),
         "sseed": dict(mod="MCJsonStringify.tla", cfg="MCJsonStringify_simq.cfg" if quick else "MCJsonStringify_simt.cfg",
-                      workers=1, simulate=40 if quick else 500, depth=80, tseed=1000 + seed),
+                      workers=1, simulate=30 if quick else 400, depth=80, tseed=1000 + seed),
     }
+    if not quick:      # more deterministic simulation, spread over processes (one worker each keeps a seed reproducible)
+        for n, sd in (("p1sim2", 19), ("p1sim3", 20)):
+            jobs[n] = dict(jobs["p1sim"], tseed=sd)
+        for n, sd in (("ssim2", 19), ("ssim3", 20)):
+            jobs[n] = dict(jobs["ssim"], tseed=sd)
 
     def tlc(name):
         j = jobs[name]
         cache = os.environ.get("C18_DEVCACHE")       # development only: reuse TLC output of an earlier run
-        cpath = cache and os.path.join(cache, "%s-%s-%s.json" % (name, j["cfg"], j.get("tseed")))
+        cpath = cache and os.path.join(cache, "%s-%s-%s-%s.json" % (name, j["cfg"], j.get("tseed"), j.get("simulate")))
         if cpath and os.path.exists(cpath):
             return json.load(open(cpath))
         r = vlib.run_tlc(os.path.join(SPECDIR, j["mod"]), j["cfg"], workers=j["workers"], simulate=j.get("simulate"),
@@ -426,12 +431,12 @@ def run(tier, replay=None):
     if reps is None or len(live) != tl["p1"]["distinct"]:
         raise vlib.ToolError("pass 1: expected one CASE per distinct state (%d) and the REPS table" % tl["p1"]["distinct"])
     simrecs = {}
-    for n in ("p1sim", "p1seed"):
+    for n in [j for j in jobs if j.startswith("p1s")]:
         for tag, o in tl[n]["tagged"]:
             if tag == "CASE" and len(o["t"]) >= 8:
                 simrecs.setdefault(tuple(o["t"]), o)
     trees = {}
-    for n in ("sbfs", "ssim", "sseed"):
+    for n in [j for j in jobs if j.startswith("s")]:
         for tag, o in tl[n]["tagged"]:
             if tag == "TREE":
                 trees.setdefault(json.dumps([o["v"], o["rep"], o["space"]], sort_keys=True), o)
@@ -863,3 +868,13 @@ def model_coverage(live, reps, trees):
             "out:str", "out:undef", "out:throw", "gap:ws", "gap:ws:empty", "gap:other"}
     if want - kinds:
         raise vlib.ToolError("stringify model coverage: never built: %s" % sorted(want - kinds))
+    # cases whose text depends on the clamping of the gap to ten units
+    clamp = 0
+    for t in trees:
+        sp = t["space"]["v"] if t["space"]["t"] == "box" else t["space"]
+        beyond = (sp["t"] == "num" and sp["n"]["k"] == "rat" and sp["n"]["num"] > 10 * sp["n"]["den"]) or \
+                 (sp["t"] == "num" and sp["n"]["k"] == "inf" and not sp["n"]["neg"]) or (sp["t"] == "str" and len(sp["s"]) > 10)
+        if beyond and t["out"]["r"] == "str" and 10 in t["out"]["s"]:
+            clamp += 1
+    if clamp < 40:
+        raise vlib.ToolError("stringify model coverage: only %d cases depend on the gap clamp" % clamp)
